@@ -11,6 +11,15 @@ known finding, classified per case:
   K5  the string has a bond symbol directly before a ring-OPENING digit (`C=1CCC1`: SMILES/RDKit put the bond
       on the ring closure, FGUtils on the next atom) AND implementation == model AND the same string with
       that bond symbol moved to the closing digit satisfies the specification.
+  K11 RDKit's sanitisation REWROTE the written molecule - aromaticity perceived on a Kekule-written ring (`C1=CC=CC=C1`: RDKit has
+      six 1.5 bonds, the parser keeps 1,2) and / or charges normalised on pentavalent N written without charges (nitro `CN(=O)=O`,
+      diazo `C=N#N`, azide `CN=N#N`, N-oxide) - AND the parser's graph is, atom for atom, the molecule RDKit builds from the string
+      WITHOUT sanitisation AND the two RDKit readings differ only in bonds made aromatic (both end atoms aromatic after sanitisation)
+      or at atoms whose formal charge changed AND implementation == model.  These strings are inside the statement's sub-language
+      (upper-case organic-subset atoms, single/double/triple bonds, ring digits, branches; both toolkits accept them; the exclusion
+      clause speaks only of a non-aromatic bond between two AROMATIC, i.e. lower-case, atoms), so the disagreement is recorded as a
+      finding, not defined away.  8% of RDKit's writings are Kekule forms; RDKit never writes the uncharged N forms, the harness
+      does (HYPER templates).
 Such strings are IN the domain (plain SMILES that both toolkits accept): RDKit 2024 never writes a bond
 symbol at an opening digit, so the harness moves/copies closing-digit bond symbols to the opening digit and
 adds hand-written ring templates whose closure bond is double.
@@ -20,8 +29,8 @@ their ring labels renumbered (any digit 0-9, re-used after closing) and (b) writ
 spanning tree; a ring bond between textually consecutive atoms `CC(C1)C1`; a chain bond as ring closure across a dot `C1.C1`; ring
 digits after branches); 30% of the plain cases reach the parser through `Parser().parse` / `Parser()()` instead of `parse()`.
 Out of domain (counted and reported): adjacent ring digits (`C12…`, excluded by the property statement:
-"non-adjacent ring-closure digits"), strings on which RDKit re-perceives aromaticity (Kekulé forms), strings
-RDKit rejects.
+"non-adjacent ring-closure digits"), two lower-case atoms joined by a bond that is not aromatic (the statement's own exclusion),
+strings RDKit rejects; and, counted separately as not judged, K1 / K5 syntax on a string that sanitisation also rewrites.
 """
 import json
 import os
@@ -60,6 +69,55 @@ CORPUS = ['CSn1cccc1', 'C1CCCc2c1cccc2', 'c1ccccc1', 'CC(=O)O', 'C1CC1.C1CC1', '
 CLOSURE_BODIES = ['CC', 'CCC', 'CCCC', 'COC', 'CNC', 'CC(C)C', 'CSC', 'CCOC', 'C(F)C', 'CC(=O)C', 'CC(c2ccccc2)C', 'CCCCCC']
 CLOSURE_PREFIX = ['', '', 'C', 'CC', 'OC', 'ClC', 'N(C)', 'O=C(O)', 'c1ccccc1', 'FC(F)(F)']
 CLOSURE_SUFFIX = ['', '', 'C', 'O', 'Cl', 'CC', 'N(C)C', 'c1ccccc1']
+
+
+# pentavalent N written WITHOUT charges (RDKit's sanitisation rewrites it into the charge-separated form and changes bond orders:
+# known finding K11) and S / P groups written the same way (RDKit leaves those alone: both toolkits must agree).  RDKit's writer
+# never produces the uncharged N forms, so these strings come from templates.
+HYPER_R = ['C', 'CC', 'CC(C)', 'OCC', 'C1CCCCC1', 'c1ccccc1', 'Clc1ccc(cc1)', 'C1CC1', 'N#CC', 'CC(=O)C', 'c1ccncc1', 'CS(=O)(=O)C', 'CCC', 'CCCC',
+           'C=CC', 'FC(F)(F)C', 'c1ccc2ccccc2c1', 'c1ccsc1', 'C1CCOC1', 'BrCC', 'NCC', 'SCC', 'C(C)(C)(C)', 'Cc1ccccc1', 'C1CCC1C', 'O=C(O)C', 'IC', 'c1cc(C)ccc1']
+HYPER_TAIL = ['N(=O)=O', 'N(=O)=O', 'N=N#N', 'ON(=O)=O', 'N(C)(C)=O', 'S(=O)(=O)C', 'S(C)=O', 'P(=O)(C)C', 'OP(=O)(O)O', 'S(=O)(=O)N(=O)=O']
+HYPER_HEAD = ['O=N(=O)', 'N#N=N', 'O=N(C)(C)', 'O=S(C)(=O)', 'O=P(C)(C)']
+HYPER_DIAZO = ['C=N#N', 'CC=N#N', 'CC(C)=N#N', 'N#N=C', 'N#N=CC', 'C1CCCCC1=N#N', 'N#N=C1CCCC1', 'CC(=N#N)C', 'O=C(C)C=N#N', 'C(=N#N)c1ccccc1',
+               'C#N=O', 'CC#N=O', 'O=N#CC']
+
+
+def hyper_template(rng):
+    c = rng.random()
+    if c < 0.5:
+        return rng.choice(HYPER_R) + rng.choice(HYPER_TAIL)
+    if c < 0.7:
+        return rng.choice(HYPER_HEAD) + rng.choice(HYPER_R)
+    if c < 0.8:
+        return rng.choice(HYPER_HEAD) + rng.choice(['C', 'CC', 'c1ccc(cc1)', 'C1CCC(CC1)']) + rng.choice(HYPER_TAIL)
+    return rng.choice(HYPER_DIAZO)
+
+
+def sanitisation_view(s):
+    """RDKit ALONE: (kinds of rewriting RDKit's sanitisation did to the molecule it built from s: subset of {'aromaticity_perceived',
+    'charges_normalised'}; canonical graph of the molecule RDKit builds WITHOUT sanitisation; do the sanitised and the unsanitised
+    molecule differ ONLY in bonds made aromatic (both end atoms aromatic after sanitisation) or at atoms whose formal charge changed?)"""
+    from rdkit import Chem
+    raw = Chem.MolFromSmiles(s, sanitize=False)
+    san = Chem.MolFromSmiles(s)
+    if raw is None or san is None or raw.GetNumAtoms() != san.GetNumAtoms() or raw.GetNumBonds() != san.GetNumBonds():
+        return set(), None, False
+    charged = {a.GetIdx() for a, b in zip(raw.GetAtoms(), san.GetAtoms()) if a.GetFormalCharge() != b.GetFormalCharge()}
+    kinds = {"charges_normalised"} if charged else set()
+    only_there = True
+    for x, y in zip(raw.GetBonds(), san.GetBonds()):
+        ends = {x.GetBeginAtomIdx(), x.GetEndAtomIdx()}
+        if ends != {y.GetBeginAtomIdx(), y.GetEndAtomIdx()}:
+            only_there = False
+        elif x.GetBondType() != y.GetBondType():
+            if y.GetIsAromatic() and y.GetBeginAtom().GetIsAromatic() and y.GetEndAtom().GetIsAromatic():
+                kinds.add("aromaticity_perceived")
+            elif not (ends & charged):
+                kinds.add("other")
+                only_there = False
+    raw_can = canon_graph(rdkit_direct_graph(raw))
+    raw_can[1] = [[n[0], n[1], None, None, None] for n in raw_can[1]]
+    return kinds, raw_can, only_there
 
 
 def closure_template(rng):
@@ -663,11 +721,22 @@ def make_case(r, s, origin, tags=(), reused=None, module_history=False, replay_m
         rd_can = canon_graph(g_direct)
         rd_can[1] = [[n[0], n[1], None, None, None] for n in rd_can[1]]
         atoms = chain_atoms(chain)
-        in_contract = mol.GetNumAtoms() == len(atoms) and all(
-            a.GetIsAromatic() == atoms[a.GetIdx()][1].islower() for a in mol.GetAtoms()) and all(
-            b.GetIsAromatic() for b in mol.GetBonds() if b.GetBeginAtom().GetIsAromatic() and b.GetEndAtom().GetIsAromatic())
-        if not in_contract:
-            r.count("filter:out_of_contract(aromaticity re-perceived or non-aromatic bond between aromatic atoms)")
+        lower = lambda a_: atoms[a_.GetIdx()][1].islower()
+        atoms_ok = mol.GetNumAtoms() == len(atoms)
+        # the statement's own exclusion: two AROMATIC (lower-case written) atoms joined by a bond that is not aromatic
+        stmt_excluded = atoms_ok and any(not b.GetIsAromatic() for b in mol.GetBonds() if lower(b.GetBeginAtom()) and lower(b.GetEndAtom()))
+        lower_not_aromatic = atoms_ok and any(lower(a) and not a.GetIsAromatic() for a in mol.GetAtoms())
+        in_contract = atoms_ok and not stmt_excluded and not lower_not_aromatic
+        if stmt_excluded:
+            r.count("filter:out_of_contract(non-aromatic bond between two lower-case atoms: excluded by the statement)")
+        elif not in_contract:
+            r.count("filter:out_of_contract(atom count differs or a lower-case atom is not aromatic for RDKit)")
+    kinds, raw_can, only_there = (set(), None, False) if isinstance(rd, ImplError) else sanitisation_view(s)
+    rewrote = bool(kinds)
+    if rewrote and in_contract and (opening_bond or has_S_then_n(s)):
+        # K5 / K1 strings that sanitisation ALSO rewrites: the two divergences cannot be told apart per case; counted, not judged
+        in_contract = False
+        r.count("filter:not_judged(K1/K5 syntax on a string whose molecule RDKit's sanitisation rewrites)")
     impl_can = impl if isinstance(impl, ImplError) else canon_graph(impl)
     in_domain = in_contract and not hard_exc and not isinstance(rd, ImplError)
     if in_domain and lib_can != rd_can:
@@ -684,12 +753,27 @@ def make_case(r, s, origin, tags=(), reused=None, module_history=False, replay_m
           "atoms>=15" if st['atoms'] >= 15 else "atoms<15"]
     if has_S_then_n(s):
         t.append("S_then_n")
+    if rewrote:
+        t.append("sanitisation_rewrote")
+        for kd in sorted(kinds):
+            t.append("sanitisation_rewrote:" + kd)
+        if in_domain:
+            t.append("sanitisation_rewrote:in_domain")
+            t.append("sanitisation_rewrote:in_domain:" + "+".join(sorted(kinds)))
     if opening_bond:
         t.append("bond_before_opening_digit")
         if in_domain:
             t.append("bond_before_opening_digit:in_domain")
     meta = {"smiles": s, "origin": origin, "in_contract": in_contract, "excluded": sorted(hard_exc),
-            "opening_bond": opening_bond}
+            "opening_bond": opening_bond, "sanitisation_rewrote": rewrote}
+    if rewrote:
+        # scope of K11, decided with RDKit alone: the parser's graph (symbols up to c -> C) is, atom for atom, the molecule RDKit
+        # builds WITHOUT sanitisation, and sanitisation changed only bonds it made aromatic (both end atoms aromatic) or bonds at
+        # atoms whose formal charge it changed
+        same_as_raw = (not isinstance(impl_can, ImplError)) and raw_can is not None and impl_can[2] == raw_can[2] and [
+            [n[0], (n[1] or "").capitalize() if (n[1] or "").islower() else n[1]] for n in impl_can[1]] == [[n[0], n[1]] for n in raw_can[1]]
+        meta["k11_scope"] = bool(same_as_raw and only_there)
+        meta["sanitisation_kinds"] = sorted(kinds)
     meta.update(hist_meta)
     meta["entry"] = "reused_Parser_object.parse" if meta.get("reused_parser") else (entry or "parse()") if not hist_meta else "parse()"
     t.append("entry:" + meta["entry"])
@@ -706,19 +790,21 @@ def run(tier, seed):
     n_strings = 2200 if tier == "quick" else 140000
     known = {f["id"]: f for f in load_known_findings()}
     k1, k5 = known["K1"], known["K5"]
+    k11 = known.get("K11", {"status": "absent"})
     # witnesses of known findings are replayed against the real code on every run
     cfile = os.path.join(CORPUS_DIR, "C02", "witnesses.json")
     if os.path.exists(cfile):
         for w in json.load(open(cfile))["cases"]:
             if w not in CORPUS:
                 CORPUS.append(w)
-    for f in (k1, k5):
+    for f in (k1, k5, k11):
         for w in f.get("witnesses", []):
             if w not in CORPUS:
                 CORPUS.append(w)
 
     normalised_ok = {}       # original string -> does the writing with the opening bonds moved to the closing digits satisfy the spec?
-    hits = {"K1": 0, "K5": 0}
+    hits = {"K1": 0, "K5": 0, "K11": 0}
+    k11_kinds = {}
 
     def classify_known(o):
         """a failing in-domain case is a known finding only inside the finding's scope, decided per case, and only
@@ -789,7 +875,17 @@ def run(tier, seed):
             rd_ok, plain, wf = o.extra[0] == "1", o.extra[1] == "1", o.extra[2] == "1"
             meta = o.case.meta
             if meta["in_contract"] and not rd_ok and not meta["excluded"]:
-                broken_assumption.append(o)
+                if (meta.get("sanitisation_rewrote") and meta.get("k11_scope") and k11.get("status") == "open" and o.case.in_domain
+                        and o.spec_impl == "1" and (o.corr or not (r.build.proofs_ok and not r.audit_bad))
+                        and not meta["opening_bond"] and not has_S_then_n(meta["smiles"])):
+                    # the parser's graph is smilesDenote(s) and, atom for atom, RDKit's UNSANITISED molecule, but not the molecule RDKit
+                    # builds (sanitisation perceived aromaticity on a Kekule-written ring and / or normalised charges): known finding K11
+                    hits["K11"] += 1
+                    kd = "+".join(meta.get("sanitisation_kinds", []))
+                    k11_kinds[kd] = k11_kinds.get(kd, 0) + 1
+                    r.known_hits.append((k11, o))
+                else:
+                    broken_assumption.append(o)
             if o.case.in_domain and not (plain and (wf or has_S_then_n(meta["smiles"]) or meta["opening_bond"])):
                 inconsistent += 1
             if o.case.in_domain and meta["opening_bond"]:
@@ -798,11 +894,21 @@ def run(tier, seed):
         pending.clear()
 
     while produced < n_strings:
-        if rng.random() < 0.12:
+        c_kind = rng.random()
+        if c_kind < 0.12:
             s = closure_template(rng)
             c = add(s, "closure_template")
             produced += 1
             cands = [(s, c)]
+        elif c_kind < 0.22:
+            # hypervalent N / S / P groups written without charges (RDKit never writes the N forms)
+            cands = []
+            for _ in range(4):
+                s = hyper_template(rng)
+                c = add(s, "hyper_template")
+                produced += 1
+                if c is not None and not c.meta.get("sanitisation_rewrote"):
+                    cands.append((s, c))
         else:
             m = gen_mol(rng)
             if m.GetNumAtoms() < 3:
@@ -816,7 +922,7 @@ def run(tier, seed):
         # writings renumbered (any digit 0-9, 0 included, labels re-used after closing), and the molecule written again
         # by the harness's own writer (any spanning tree instead of a depth-first one; a ring bond between textually
         # consecutive atoms `CC(C1)C1`; a chain bond as a ring closure across a dot `C1.C1`; digits after branches)
-        src = [(s, c) for s, c in cands if c is not None and c.in_domain and not c.meta["opening_bond"]]
+        src = [(s, c) for s, c in cands if c is not None and c.in_domain and not c.meta["opening_bond"] and not c.meta.get("sanitisation_rewrote")]
         for s, c in src:
             if rng.random() < 0.3:
                 ch2 = renumber_rings(rng, read_chain(s, single_digit_rings=True, atom_re=_SMILES_TOK))
@@ -836,7 +942,7 @@ def run(tier, seed):
                 produced += 1
         for s, c in cands:
             # RDKit writes ring-closure bond symbols at the closing digit only: move / copy them to the opening digit
-            if c is None or not c.in_domain or rng.random() >= (0.9 if "=9" in s else 0.35):
+            if c is None or not c.in_domain or c.meta.get("sanitisation_rewrote") or rng.random() >= (0.9 if "=9" in s else 0.35):
                 continue
             chain = read_chain(s, single_digit_rings=True, atom_re=_SMILES_TOK)
             for ch2, how in opening_bond_variants(rng, chain):
@@ -851,33 +957,46 @@ def run(tier, seed):
     r.extra_cov["known_finding_hits_by_id"] = dict(hits)
     r.extra_cov["history_cases(reused Parser object / module-level parse after other strings)"] = dist.get("tag:history", 0)
     r.extra_cov["history_cases_differing_from_fresh_object"] = dist.get("tag:history:differs_from_fresh_object", 0)
+    r.extra_cov["sanitisation_rewrote_in_domain_cases(Kekule-written aromatic rings; nitro/diazo/azide/N-oxide without charges)"] = {
+        k[len("tag:sanitisation_rewrote:in_domain:"):]: v for k, v in sorted(dist.items()) if k.startswith("tag:sanitisation_rewrote:in_domain:")}
+    r.extra_cov["known_finding_K11_hits_by_kind"] = dict(sorted(k11_kinds.items()))
     r.extra_cov["bond_before_opening_digit_in_domain_cases"] = opening_in_domain[0]
     r.extra_cov["bond_before_opening_digit_in_domain_cases_failing_spec"] = opening_in_domain[1]
     r.extra_cov["input_forms_in_domain(ring labels, writings no depth-first writer produces)"] = {
         k: dist.get("tag:" + k + ":in_domain", 0) for k in ("ring_label:0", "ring_label:reused_after_closing",
                                                             "ring_bond:consecutive_atoms", "ring_bond:across_dot")}
     r.extra_cov["strings_by_origin"] = {k[4:]: v for k, v in dist.items() if k.startswith(("tag:writing:", "tag:own_writer:", "tag:ring_labels_renumbered",
-                                                                                          "tag:closure_template", "tag:opening_bond:", "tag:corpus"))}
+                                                                                          "tag:closure_template", "tag:hyper_template", "tag:opening_bond:", "tag:corpus"))}
     r.extra_cov["cases_by_entry_point"] = {k[len("tag:entry:"):]: v for k, v in sorted(dist.items()) if k.startswith("tag:entry:")}
     r.extra_cov["out_of_domain_counts"] = {
         "adjacent_ring_digits (excluded by the property statement)": dist.get("filter:excluded_syntax:adjacent_ring_digits", 0),
         "unclosed_ring": dist.get("filter:excluded_syntax:unclosed_ring", 0),
-        "aromaticity_re-perceived_or_Kekule (outside the RDKit contract)":
-            dist.get("filter:out_of_contract(aromaticity re-perceived or non-aromatic bond between aromatic atoms)", 0),
+        "non-aromatic bond between two lower-case (aromatic) atoms (excluded by the property statement)":
+            dist.get("filter:out_of_contract(non-aromatic bond between two lower-case atoms: excluded by the statement)", 0),
+        "atom count differs / lower-case atom not aromatic for RDKit":
+            dist.get("filter:out_of_contract(atom count differs or a lower-case atom is not aromatic for RDKit)", 0),
+        "K1/K5 syntax on a string sanitisation rewrites (two divergences at once: counted, not judged)":
+            dist.get("filter:not_judged(K1/K5 syntax on a string whose molecule RDKit's sanitisation rewrites)", 0),
         "rdkit_rejects": dist.get("filter:rdkit_rejects", 0),
         "not_in_shared_sub-language (brackets, %, stereo, charges; never sent)":
             dist.get("filter:rejected_chars(brackets,%,stereo,charges)", 0) + dist.get("filter:not_in_grammar", 0),
     }
     r.assumptions = r.assumptions + [
-        "RDKit contract (trusted, exercised on every case): on strings where sanitisation does not re-perceive aromaticity, "
-        "the molecule RDKit builds from s, read with RDKit alone (harness/c02.py: rdkit_direct_graph, no library code) = smilesDenote(s) up to c -> C; "
+        "RDKit contract (trusted, exercised on every case): on strings whose molecule RDKit's sanitisation does not rewrite (no aromaticity "
+        "perceived on upper-case atoms, no formal charge changed), the molecule RDKit builds from s, read with RDKit alone (harness/c02.py: rdkit_direct_graph, no library code) = smilesDenote(s) up to c -> C; "
         "disagreements in this run: %d; fgutils.rdkit.mol_smiles_to_graph(s) is compared with that reading on every in-domain string "
         "(differences in this run: %d, each a violation)" % (len(broken_assumption), len(ORACLE_SIDE)),
         "molecules are generated without stereo centres, charges or isotopes; writings containing [ ] % @ / \\ + are filtered (counted)",
         "out of domain (counted in out_of_domain_counts): adjacent ring digits (C12 is ring '12' for FGUtils; excluded by the property statement), "
-        "strings on which RDKit re-perceives aromaticity (Kekule forms), strings RDKit rejects",
+        "two lower-case atoms joined by a bond that is not aromatic (the statement's own exclusion), strings RDKit rejects; K1/K5 syntax on a string "
+        "that sanitisation also rewrites is counted as not judged",
         "a bond symbol before a ring-OPENING digit is IN the domain: a failing case there is known finding K5 only if implementation == model and "
         "the writing with the symbol moved to the closing digit satisfies the specification; anything else is a violation",
+        "strings whose molecule RDKit's sanitisation REWRITES - aromaticity perceived on a Kekule-written ring ('C1=CC=CC=C1'), charges normalised on "
+        "pentavalent N written without charges - are IN the domain (the statement's sub-language does not exclude them): RDKit's molecule is then "
+        "not smilesDenote(s) by construction (not a broken assumption); such a case is known finding K11 only if the parser's graph is atom for atom "
+        "the molecule RDKit builds WITHOUT sanitisation, the two RDKit readings differ only in bonds made aromatic (both end atoms aromatic after "
+        "sanitisation) or at atoms whose charge changed, and implementation == model == smilesDenote; anything else is a violation or a broken assumption",
         "everything assumed for C01 (lexer/networkx models)",
     ]
     r.extra_cov["mol_smiles_to_graph_vs_rdkit_alone_differences"] = len(ORACLE_SIDE)
@@ -894,13 +1013,14 @@ def run(tier, seed):
         level="proof",
         rule="molecules assembled from %d ring systems (aromatic/hetero-aromatic, fused, spiro, bridged) and %d chain fragments (3-30 heavy atoms, "
              "dots), 4 non-canonical writings each (random atom order and root; 20%% all bonds explicit, 8%% Kekule); 12%% ring templates closed on a "
-             "double bond; closing-digit bond symbols moved/copied to the opening digit (35%% / 90%% of the eligible writings); INPUT FORMS: 30%% of the writings "
+             "double bond; 6%% templates with hypervalent N/S/P groups written without charges (nitro, diazo, azide, N-oxide, nitrate, sulfone, sulfoxide, "
+             "phosphine oxide, phosphate on chains and rings: RDKit never writes the N forms); closing-digit bond symbols moved/copied to the opening digit (35%% / 90%% of the eligible writings); INPUT FORMS: 30%% of the writings "
              "again with renumbered ring labels (digits 0-9 incl. 0, labels re-used after closing), and per molecule 1-2 writings of the harness's own writer "
              "(any spanning tree, ring bond between textually consecutive atoms `CC(C1)C1`, chain bond as ring closure across a dot `C1.C1`, ring digits after "
              "branches, last child in parentheses; tags ring_label:* / ring_bond:* are decided by an oracle on the syntax tree of every string); filtered to the shared "
              "sub-language; HISTORY: every 5th string is parsed on a long-lived Parser() object (sessions of 2-40 strings with <g,h> patterns, rejected "
              "strings such as '1CC', 'CC(C!)C' and unfinished patterns such as 'C(C' in between) or through the module-level parse() directly after such "
-             "strings; the replay records the preceding calls; in-domain = plain, no adjacent ring digits, in RDKit contract (bond symbols before opening digits included); non-trivial = "
+             "strings; the replay records the preceding calls; in-domain = plain, no adjacent ring digits, RDKit accepts, no non-aromatic bond between lower-case atoms (bond symbols before opening digits, Kekule-written aromatic rings and uncharged pentavalent N included); non-trivial = "
              ">=4 atoms with ring or branch, distinct strings"
              % (len(RINGS), len(CHAINS)),
         checker_cmd="cd lean && lake build FGVerif.Proofs.C02 && lake env lean FGVerif/Audit/C02.lean",
